@@ -160,7 +160,40 @@ type IndexedColumn struct {
 	SortOrder  SortOrder
 }
 
+// SQLite's default SQLITE_MAX_EXPR_DEPTH.
+const maxExprDepth = 1000
+
+// exprTooDeep walks the expression without recursing.
+func exprTooDeep(e Expression) bool {
+	type item struct {
+		e     Expression
+		depth int
+	}
+	todo := []item{{e, 1}}
+	for len(todo) > 0 {
+		it := todo[len(todo)-1]
+		todo = todo[:len(todo)-1]
+		if it.depth > maxExprDepth {
+			return true
+		}
+		switch v := it.e.(type) {
+		case ExBinaryOp:
+			todo = append(todo, item{v.Left, it.depth + 1}, item{v.Right, it.depth + 1})
+		case ExFunction:
+			for _, a := range v.Args {
+				todo = append(todo, item{a, it.depth + 1})
+			}
+		}
+	}
+	return false
+}
+
 func newIndexColumn(e Expression, collate string, sort SortOrder) IndexedColumn {
+	if exprTooDeep(e) {
+		// SQLite refuses such an expression; a stored definition with one
+		// is hostile. AsString would recurse (and concatenate) per level.
+		return IndexedColumn{Expression: "(expression too deep)", SortOrder: sort}
+	}
 	col := AsColumn(e)
 	if lit, ok := e.(string); ok {
 		// SQLite reads a string literal in a list of indexed columns as a
